@@ -177,6 +177,25 @@ func runC15(rec *vkit.Recorder, c *c15Case) []vkit.Violation {
 		}
 	}
 
+	// the name of the scrape config is not part of a target's identity: when every target carries a discovered `job`
+	// label (Prometheus keeps a non-empty one), renaming the job leaves all final labels and URLs as they were
+	if len(c.Job.Rules) == 0 && len(set) > 0 {
+		allHaveJob := true
+		for _, g := range c.Groups {
+			for _, t := range g.Targets {
+				if g.Labels["job"] == "" && t["job"] == "" {
+					allHaveJob = false
+				}
+			}
+		}
+		if allHaveJob {
+			renamed := c.Job
+			renamed.Name = c.Job.Name + "-renamed"
+			check("job-renamed-with-discovered-job-labels", c.Groups, &renamed)
+			rec.Class("neutral/job-renamed")
+		}
+	}
+
 	// single-component edits: every hash of a non-empty result must change when the component changes for all targets
 	if len(set) > 0 {
 		type edit struct {
@@ -403,6 +422,15 @@ func genC15(t *rapid.T) *c15Case {
 		c.Groups = append(c.Groups, g)
 	}
 	c.Perm = int64(rapid.IntRange(1, 1<<20).Draw(t, "perm"))
+	if rapid.IntRange(0, 3).Draw(t, "jobLabels") == 0 {
+		// every group carries a discovered job label (file_sd / static labels): the targets' job is not the job_name
+		for i := range c.Groups {
+			if c.Groups[i].Labels == nil {
+				c.Groups[i].Labels = map[string]string{}
+			}
+			c.Groups[i].Labels["job"] = rapid.SampledFrom([]string{"team-a/node", "legacy", "node"}).Draw(t, fmt.Sprintf("jobLabel%d", i))
+		}
+	}
 	if rapid.IntRange(0, 3).Draw(t, "long") == 0 {
 		c.Long = rapid.IntRange(700, 1200).Draw(t, "longLen")
 		for i := range c.Groups {
